@@ -43,12 +43,15 @@ PROPS = {
     "C01": dict(theorems=["Props/C01.v", "Props/C01w.v"], parts=[
         dict(kind="core", profile="C01", mask="out,keys,vals", preds="c01", quick=Q, thorough=T),
         dict(kind="macro", profile="C01", preds="pure", quick=300, thorough=8000)]),
+    "C02": dict(theorems=["parts/keys/coq|CLK|Props_C02.v"], parts=[
+        dict(kind="ext", name="keys", quick=1500, thorough=30000)]),
     "C03": dict(theorems=["Props/C03.v"], parts=[
         dict(kind="macro", profile="C03", preds="once,pure", quick=400, thorough=10000)]),
     "C04": dict(theorems=["Props/C04.v"], parts=[
         dict(kind="core", profile="C04", mask="keys,qset", preds="c04,wf", quick=Q, thorough=T)]),
-    "C05": dict(theorems=["Props/C05.v"], parts=[
-        dict(kind="core", profile="C05", mask="keys,qset,size", preds="c05,wf", quick=Q, thorough=T)]),
+    "C05": dict(theorems=["Props/C05.v", "parts/memest/coq|CLM|Props_C05_memest.v"], parts=[
+        dict(kind="core", profile="C05", mask="keys,qset,size", preds="c05,wf", quick=Q, thorough=T),
+        dict(kind="ext", name="memest", quick=1500, thorough=30000, env={"MEMEST_TARGET": BUILD + "/target"})]),
     "C06": dict(theorems=["Props/C06.v"], parts=[
         dict(kind="core", profile="C06", mask="out,keys,qset,born,stats", preds="c06", quick=Q, thorough=T)]),
     "C07": dict(theorems=["Props/C07.v"], parts=[
@@ -93,6 +96,7 @@ class Run:
         self.assumptions = []
         self.nontrivial_hashes = set()
         self.replay_n = 0
+        self.ext_nontrivial = 0
 
     def replay_path(self, tag):
         os.makedirs(BUILD + "/replay", exist_ok=True)
@@ -128,18 +132,19 @@ def strip_coq_comments(s):
 
 def scan_forbidden():
     bad = []
-    for dirpath, _, files in os.walk(COQ):
-        for fn in files:
-            if fn.endswith(".v"):
-                p = os.path.join(dirpath, fn)
-                txt = strip_coq_comments(open(p).read())
-                for m in FORBIDDEN.finditer(txt):
-                    bad.append("%s: %s" % (os.path.relpath(p, COQ), m.group(0)))
+    for top in [COQ, ROOT + "/parts"]:
+        for dirpath, _, files in os.walk(top):
+            for fn in files:
+                if fn.endswith(".v"):
+                    p = os.path.join(dirpath, fn)
+                    txt = strip_coq_comments(open(p).read())
+                    for m in FORBIDDEN.finditer(txt):
+                        bad.append("%s: %s" % (os.path.relpath(p, ROOT), m.group(0)))
     return bad
 
 
 def build_model(run):
-    rc, out = sh(ROOT + "/tools/build_model.sh", timeout=3000)
+    rc, out = sh(ROOT + "/tools/build_model.sh && " + ROOT + "/parts/setup_parts.sh", timeout=3000)
     if rc != 0:
         run.add_violation("theorem", "the Coq development or the extracted driver no longer builds: " + out[-400:],
                           "coq-build-log:\n" + out[-3000:], False, "coq-build")
@@ -151,8 +156,13 @@ def check_theorems(run, vfiles):
     """re-check the property's theorem files from scratch and read Print Assumptions"""
     bad = scan_forbidden()
     cmds = []
-    for vfile in vfiles:
-        path = os.path.join(COQ, vfile)
+    for vspec in vfiles:
+        if "|" in vspec:
+            cdir, root, vfile = vspec.split("|")
+            cdir = os.path.join(ROOT, cdir)
+        else:
+            cdir, root, vfile = COQ, "CL", vspec
+        path = os.path.join(cdir, vfile)
         if not os.path.exists(path):
             run.add_violation("theorem", "theorem file %s is missing" % vfile, vfile, False, "theorem-missing")
             continue
@@ -162,7 +172,7 @@ def check_theorems(run, vfiles):
         run.cov["obligations"] += len(thms)
         run.cov.setdefault("theorems", []).extend(thms)
         missing = [t for t in thms if t not in names]
-        cmd = "cd %s && timeout 600 coqc -Q . CL %s" % (COQ, vfile)
+        cmd = "cd %s && timeout 600 coqc -Q . %s %s" % (cdir, root, vfile)
         cmds.append(cmd)
         rc, out = sh(cmd, timeout=700)
         closed, axioms = 0, []
@@ -479,6 +489,51 @@ def part_macro(run, part):
         run.add_violation("mismatch", what, "\n".join(small) + "\n# " + v, False, "mismatch " + v[:60])
     run.cov["histograms"]["macro_timing_discards"] = sum(1 for v in verdicts.values() if v.startswith("SKIP"))
 
+
+# ---------------------------------------------------------------------------------------
+# self-contained parts (parts/<name>/run.sh <seed> <count> <workdir> prints V / F / E / STAT lines)
+# ---------------------------------------------------------------------------------------
+def part_ext(run, part):
+    name = part["name"]
+    n = part["quick"] if run.tier == "quick" else part["thorough"]
+    work = "%s/%s_work" % (BUILD, name)
+    env = dict(ENV)
+    env.update(part.get("env", {}))
+    rc, out = sh("%s/parts/%s/run.sh %d %d %s" % (ROOT, name, run.seed, n, work), timeout=3000, env=env)
+    oks, bad, fails, errs, stats, sample = 0, [], [], [], {}, []
+    for line in out.splitlines():
+        t = line.split(" ", 2)
+        if t[0] == "V" and len(t) >= 3:
+            if t[2].startswith("ok"):
+                oks += 1
+                if len(sample) < 2:
+                    sample.append(line)
+            else:
+                bad.append(line)
+        elif t[0] == "F":
+            fails.append(line)
+        elif t[0] == "E":
+            errs.append(line)
+        elif t[0] == "STAT":
+            stats[" ".join(t[1:2])] = " ".join(t[2:]) if len(t) > 2 else ""
+    run.cov["evaluations"] += oks + len(bad)
+    run.cov["traces_validated_against_impl"] += oks
+    run.cov["histograms"][name] = stats
+    run.cov["samples"] += [dict(part=name, line=l[:300]) for l in sample]
+    run.cov["parts"].append(dict(kind="ext", name=name, cases=oks + len(bad), cmd="parts/%s/run.sh %d %d" % (name, run.seed, n)))
+    run.ext_nontrivial += oks
+    replay_hdr = "part=%s seed=%d count=%d\nrerun: %s/parts/%s/run.sh %d %d %s\n" % (name, run.seed, n, ROOT, name, run.seed, n, work)
+    if fails:
+        run.add_violation("prop", "part %s: %d property failures on the implementation; first: %s" % (name, len(fails), fails[0][:300]),
+                          replay_hdr + "\n".join(fails[:5]), True, "%s %s" % (name, fails[0][:60]))
+    elif bad:
+        run.add_violation("mismatch", "correspondence %s broken: model and implementation disagree on %d of %d cases; first: %s"
+                          % (name, len(bad), oks + len(bad), bad[0][:300]), replay_hdr + "\n".join(bad[:5]), False, "%s mismatch" % name)
+    elif rc != 0 or errs:
+        run.add_violation("mismatch", "part %s did not run to completion (rc=%d): %s" % (name, rc, (errs or [out[-300:]])[0][:300]),
+                          replay_hdr + out[-2000:], False, "%s run" % name)
+
+
 def nontrivial_ids(obs_file):
     """cases whose implementation trace contains an eviction (a stored key disappears on a store) or an expiry"""
     ids, cur, prev_keys, nt = set(), None, set(), False
@@ -502,7 +557,7 @@ def nontrivial_ids(obs_file):
     return ids
 
 
-PART_RUNNERS = {"core": part_core, "macro": part_macro}
+PART_RUNNERS = {"core": part_core, "macro": part_macro, "ext": part_ext}
 
 
 # ---------------------------------------------------------------------------------------
@@ -565,7 +620,7 @@ def run_check(pid, tier, seed, replay=None):
         tail = "" if v["found_input"] else " no-failing-input-found"
         print("VIOLATION property=%s replay=%s%s" % (pid, v["replay"], tail))
         print("  " + v["what"][:600])
-    run.cov["distinct_nontrivial"] = len(run.nontrivial_hashes)
+    run.cov["distinct_nontrivial"] = len(run.nontrivial_hashes) + run.ext_nontrivial
     run.cov["rule"] = ("cases = committed corpus of minimised failures + histories generated from VERIF_SEED by tools/gen_cases.py "
                        "(one splitmix64 stream; configuration product sampled per property profile); a case is non-trivial if "
                        "the implementation's trace contains at least one eviction or expiry; distinct = distinct (configuration, "
